@@ -303,6 +303,16 @@ func (w *World) buildOp(op *Op) *BuiltOp {
 		}
 		b.IsFeeOp = true
 		id, reg := w.regRef(m, op.Ref)
+		if g := w.ghostFor(b.Module, op); g != nil {
+			// retry by the same party of an operation whose earlier attempt (against an identifier that did
+			// not exist then) was rolled back or only went through CheckTx
+			id, reg = g.ID, m.Reg(g.ID)
+			actorExplicit, actor = true, w.acct(g.Actor)
+			w.Class("op.retry-of-rolled-back-forward-ref")
+			if reg != nil && reg.Owner != actor.Key() {
+				w.Class("op.retry-on-registration-now-owned-by-someone-else")
+			}
+		}
 		if reg != nil {
 			setParties(w.addrByKey(reg.Owner))
 		} else {
@@ -362,6 +372,16 @@ func (w *World) buildOp(op *Op) *BuiltOp {
 		}
 		b.IsFeeOp = true
 		id, reg := w.regRef(m, op.Ref)
+		if g := w.ghostFor(b.Module, op); g != nil {
+			// retry by the same party of an operation whose earlier attempt (against an identifier that did
+			// not exist then) was rolled back or only went through CheckTx
+			id, reg = g.ID, m.Reg(g.ID)
+			actorExplicit, actor = true, w.acct(g.Actor)
+			w.Class("op.retry-of-rolled-back-forward-ref")
+			if reg != nil && reg.Owner != actor.Key() {
+				w.Class("op.retry-on-registration-now-owned-by-someone-else")
+			}
+		}
 		if reg != nil {
 			setParties(w.addrByKey(reg.Owner))
 		} else {
@@ -634,10 +654,54 @@ func (w *World) orderRef(ref int, any bool) uint64 {
 	return w.Ent.Orders[ref%len(w.Ent.Orders)].ID
 }
 
+// Ghost: a record/purchase attempt against an identifier that did not exist when it was made, in a
+// transaction that was rolled back or only checked.
+type Ghost struct {
+	Module string
+	ID     uint64
+	Actor  int
+}
+
+// ghostFor resolves Ref -5: the most recent ghost of the module whose identifier exists by now (else the most recent one).
+func (w *World) ghostFor(module string, op *Op) *Ghost {
+	if op.Ref != -5 {
+		return nil
+	}
+	m := w.Wrk
+	if module == "bcn" {
+		m = w.Bcn
+	}
+	var last, live *Ghost
+	for i := len(w.Ghosts) - 1; i >= 0; i-- {
+		g := &w.Ghosts[i]
+		if g.Module != module {
+			continue
+		}
+		if last == nil {
+			last = g
+		}
+		if r := m.Reg(g.ID); r != nil {
+			if live == nil {
+				live = g
+			}
+			if r.Owner != w.acct(g.Actor).Key() {
+				return g // the identifier has meanwhile been given to somebody else
+			}
+		}
+	}
+	if live != nil {
+		return live
+	}
+	return last
+}
+
 func (w *World) regRef(m *RegModel, ref int) (uint64, *Registration) {
 	switch {
 	case ref == -2:
 		return 0, nil
+	case ref == -4:
+		// forward reference: the identifier the next registration of this module will receive
+		return m.NextID, nil
 	case ref < 0 || len(m.Regs) == 0:
 		return m.NextID + 7, nil
 	}
